@@ -568,30 +568,35 @@ int cp_rsa_gen(rsa_t pub, rsa_t prv, size_t bits) {
 		bn_new(t);
 		bn_new(r);
 
-		/* Generate different primes p and q. */
+		/* Generate different primes p and q until e is invertible modulo
+		 * phi(n). */
 		do {
-			bn_gen_prime(prv->crt->p, bits / 2);
-			bn_gen_prime(prv->crt->q, bits / 2);
-		} while (bn_cmp(prv->crt->p, prv->crt->q) == RLC_EQ);
+			do {
+				bn_gen_prime(prv->crt->p, bits / 2);
+				bn_gen_prime(prv->crt->q, bits / 2);
+			} while (bn_cmp(prv->crt->p, prv->crt->q) == RLC_EQ);
 
-		/* Swap p and q so that p is smaller. */
-		if (bn_cmp(prv->crt->p, prv->crt->q) != RLC_LT) {
-			bn_copy(t, prv->crt->p);
-			bn_copy(prv->crt->p, prv->crt->q);
-			bn_copy(prv->crt->q, t);
-		}
+			/* Swap p and q so that p is smaller. */
+			if (bn_cmp(prv->crt->p, prv->crt->q) != RLC_LT) {
+				bn_copy(t, prv->crt->p);
+				bn_copy(prv->crt->p, prv->crt->q);
+				bn_copy(prv->crt->q, t);
+			}
 
-		/* n = pq. */
-		bn_mul(pub->crt->n, prv->crt->p, prv->crt->q);
-		bn_copy(prv->crt->n, pub->crt->n);
-		bn_sub_dig(prv->crt->p, prv->crt->p, 1);
-		bn_sub_dig(prv->crt->q, prv->crt->q, 1);
+			/* n = pq. */
+			bn_mul(pub->crt->n, prv->crt->p, prv->crt->q);
+			bn_copy(prv->crt->n, pub->crt->n);
+			bn_sub_dig(prv->crt->p, prv->crt->p, 1);
+			bn_sub_dig(prv->crt->q, prv->crt->q, 1);
 
-		/* phi(n) = (p - 1)(q - 1). */
-		bn_mul(t, prv->crt->p, prv->crt->q);
+			/* phi(n) = (p - 1)(q - 1). */
+			bn_mul(t, prv->crt->p, prv->crt->q);
 
-		bn_set_2b(pub->e, 16);
-		bn_add_dig(pub->e, pub->e, 1);
+			bn_set_2b(pub->e, 16);
+			bn_add_dig(pub->e, pub->e, 1);
+
+			bn_gcd(r, pub->e, t);
+		} while (bn_cmp_dig(r, 1) != RLC_EQ);
 
 #if !defined(CP_CRT)
 		/* d = e^(-1) mod phi(n). */
